@@ -111,6 +111,17 @@ def build(sites, style="rec", tests=1, header=HEADER_FULL, per_test=None):
     return "\n".join(lines) + "\n", order
 
 
+def o_dict_text(sites):
+    parts = []
+    for s in sites:
+        if s["op"] == "getitem":
+            items = ", ".join(f"({k}, {v})" for k, v in s["obs"])
+        else:
+            items = ", ".join(s["obs"])
+        parts.append(f"{s['id']}: [{items}]")
+    return "{" + ", ".join(parts) + "}"
+
+
 def outer_snapshot_args(source: str):
     """Source segments of the arguments of all outermost snapshot() calls in textual order
     (None for an argument-less call).  Raises SyntaxError if the module does not parse."""
